@@ -165,6 +165,18 @@ def semantic(ctx, N):
         pb, cpb = rand_bc(rng, 0.3, 2, Bicomplex)
         ex, cex = rand_bc(rng, -1, 1, Bicomplex)
         compare('pow(bicomplex)', pb ** ex, reference(mpm, 'pow', cpb, cex), cpb, cex)
+        # exponents whose REAL part is a whole number but which are not real: a bicomplex exponent p + i h1 + j h2 + ij h3 (the point at
+        # which d/dy x**y is taken at y = p) and a complex exponent p + i q
+        pint = float([2, 3, -1, 0, 1, -2][k % 6])
+        hh = [float(10.0 ** rng.uniform(-6, -1) * rng.choice([-1, 1])) for _ in range(3)]
+        if k % 4 == 1:
+            hh[1] = hh[2] = 0.0
+        ex2, cex2 = Bicomplex(pint + 1j * hh[0], hh[1] + 1j * hh[2]), [pint, hh[0], hh[1], hh[2]]
+        ctx.count(1, ('semantic', 'pow-bicomplex-integer-real-part', pint))
+        compare('pow(bicomplex with real part %r)' % pint, pb ** ex2, reference(mpm, 'pow', cpb, cex2), cpb, cex2)
+        qim = float(rng.uniform(-1.5, 1.5))
+        ctx.count(1, ('semantic', 'pow-complex-exponent', pint))
+        compare('pow(complex %r%+rj)' % (pint, qim), pb ** complex(pint, qim), reference(mpm, 'pow', cpb, [pint, qim, 0.0, 0.0]), cpb, [pint, qim, 0.0, 0.0])
         # z2 = 0: reduces to the complex function
         if k % 5 == 0:
             x = complex(rng.uniform(0.2, 0.9), rng.uniform(-0.3, 0.3))
